@@ -14,23 +14,34 @@ def setup():
     print("[setup] harness (debug)", flush=True)
     import glob
     bins = [os.path.basename(p)[:-3] for p in glob.glob(os.path.join(vlib.HARNESS, "src", "bin", "*.rs"))]
-    vlib.cargo_build(bins)
+    try:
+        vlib.cargo_build(bins)
+    except vlib.CheckBroken as e:
+        print("[setup] WARNING: building all harness bins at once failed; building one by one\n", str(e)[-800:])
+        for b in bins:
+            try:
+                vlib.cargo_build([b])
+            except vlib.CheckBroken as e2:
+                print("[setup] WARNING: harness bin", b, "does not build:", str(e2)[-400:])
     print("[setup] generated tables (Gen_*.v) from the built crate", flush=True)
     import gentables
     gentables.generate_all()
     print("[setup] coq: full .vo build", flush=True)
-    ok, log = vlib.coq_make()
+    ok, log = vlib.coq_make(keep_going=True)
     print(log[-1500:])
     if not ok:
-        print("[setup] coq build FAILED")
-        return 1
+        # keep going: every check rebuilds and re-checks the files it depends on and reports on its own
+        print("[setup] WARNING: some Coq files did not build; the checks that depend on them will report it")
     rel = [b for b in bins if b in ("sgcli", "sgv-trend")]
     if rel:
         print("[setup] harness (release, overflow behaviour):", rel, flush=True)
         vlib.cargo_build(rel, release=True)
     print("[setup] ocaml drivers", flush=True)
     for name, mods in vlib_drivers().items():
-        vlib.ocaml_build(name, mods)
+        try:
+            vlib.ocaml_build(name, mods)
+        except Exception as e:  # a check that needs it rebuilds it and reports
+            print("[setup] WARNING: ocaml driver", name, "not built:", str(e)[:300])
     print("[setup] done")
     return 0
 
